@@ -12,7 +12,7 @@ import typing as t
 
 from checks import blobs, common, drive
 from ref import der
-from simworld import blobstore, prng
+from simworld import blobstore, prng, world as W
 
 LINE_A, LINE_B = 150_000, 400  # budget = A + B * len(input); max observed on valid input ~4k lines for ~1 KiB
 CPU_S = 5.0  # CPU seconds per call (a normal call needs about a millisecond): backstop for work outside the line / KDF counters
@@ -184,7 +184,8 @@ def run_thread_reload(case) -> dict:
     from ref import gkdi
 
     _, seed, policy = case[2][:3]
-    first_use = len(case[2]) > 3  # run in an interpreter in which nothing of the library has run yet (see "fresh" below)
+    first_use = len(case[2]) > 3 and case[2][3] == "first"  # run in an interpreter in which nothing of the library has run yet (see "fresh" below)
+    unknown = len(case[2]) > 3 and case[2][3] == "unknown"  # the records name a root key the cache does not hold: every call must go looking for a DC
     import random
 
     r = random.Random(seed)
@@ -201,13 +202,26 @@ def run_thread_reload(case) -> dict:
         # the process's very first decryptions of public-key records, all at the same time
         pub = lambda k: dict(mk(k), mode="pub")  # noqa: E731
         grp = [{"op": "unprotect", "fl": "thread", "group": 1, "net": "offline", "blob": pub(k)} for k in range(2 + seed % 2)]
+    if unknown:
+        unk = lambda k: dict(mk(k), rk=1, pos=[l0, 3, 3] if seed % 2 else mk(k)["pos"])  # noqa: E731
+        grp = [{"op": "unprotect", "fl": "thread", "group": 1, "net": "offline", "blob": unk(k)} for k in range(2 + seed % 2)]
     ops += grp + [{"op": "unprotect", "fl": "sync", "net": "offline", "blob": mk(2)}]
     plan = {"seed": seed, "clock_ft": gkdi.interval_start_filetime(l0, 5, 5), "root_keys": [[9, offline.HASHES[seed % 4], (offline.SECRETS[(seed // 2) % 3] if seed % 5 < 2 else "ECDH_P384") if first_use else offline.SECRETS[seed % 3]]],
             "caller_sids": [offline.SID_A], "ctx": {"kind": "stub", "legs": 2, "sig": 16}, "ops": ops, "threads": policy}
+    if unknown:
+        plan["root_keys"].append([10, offline.HASHES[(seed + 1) % 4], "DH"])  # (never loaded into the cache)
     tr = P.execute_plan(plan)
     viol = None
     for ot in tr.ops:
         out = ot.outcome
+        if unknown and ot.op["op"] == "unprotect" and ot.op.get("fl") == "thread":
+            # no key material for that root key and no reachable DC: the call ends with the connection error of its attempt
+            if out.kind != "raise" or not isinstance(out.exc, (OSError, W.NeedsNetwork)):
+                et, frame = drive.exc_sig(out)
+                viol = common.violation("C05", "error-type" if out.kind == "raise" else "does-not-end", "threads", et, frame, "unknown-root-key",
+                                        f"op {ot.idx}: a record naming a root key the cache does not hold, unprotected while other threads do the same, gave {out.brief()} {out.exc!r}")
+                break
+            continue
         if ot.op["op"] == "unprotect" and (out.kind != "ok" or out.value != ot.plaintext):
             et, frame = drive.exc_sig(out)
             viol = common.violation("C05", "error-type" if out.kind == "raise" else "does-not-end", "threads", et, frame, "reload-while-unprotecting",
@@ -235,7 +249,7 @@ class C05(common.Check):
             "0/1/2/true+-1/2^32-1); structure-aware DER mutants of every TLV node (emptied, dropped, duplicated, class/constructed bit "
             "flipped, high-tag form, leaf content shortened to every length / extended with consistent enclosing lengths, raw length octets: "
             "indefinite, 0, +-1, 2^32, 2^63, 2^64, non-minimal); whole-record garbage and PRNG byte "
-            "strings; well-formed records with long / odd domain and forest names; a cache on which an earlier load_key with unusable KDF parameters failed; valid records unprotected from caller threads while another thread loads the same root key again; 2..3 caller threads unprotecting public-key records as the first thing a new interpreter does with the library (sub-process per case); a sample of the field / DER mutations in a child interpreter with assertions compiled out. Oracle: returns | needs-network | ValueError/NotImplementedError/NotEnougData/InvalidTag/InvalidUnwrap; <= 300 KDF "
+            "strings; well-formed records with long / odd domain and forest names; a cache on which an earlier load_key with unusable KDF parameters failed; valid records unprotected from caller threads while another thread loads the same root key again; records naming a root key the shared cache does not hold, from 2..3 threads at once; 2..3 caller threads unprotecting public-key records as the first thing a new interpreter does with the library (sub-process per case); a sample of the field / DER mutations in a child interpreter with assertions compiled out. Oracle: returns | needs-network | ValueError/NotImplementedError/NotEnougData/InvalidTag/InvalidUnwrap; <= 300 KDF "
             "calls; <= 150000 + 400*len traced lines; <= 5 s of CPU time (backstop for work outside the interpreter: regular expressions, big numbers); address-space growth during the call <= 64 MiB + 64*len (kernel high-water mark); for the field mutations and a quarter of the others the undamaged blob is unprotected afterwards on the same "
             "cache and must still return its plaintext (locks created by the library are simulated: an acquire nobody can satisfy is the "
             "outcome 'blocks'). Non-trivial = stored bytes differ from a valid blob; distinct = distinct (blob, mutation).")
@@ -313,6 +327,10 @@ class C05(common.Check):
         for k in range(240 if tier == "quick" else 10000):
             pol = {"mode": "marks", "q": (0.3, 0.6, 0.9)[k % 3], "p": (0.0, 0.02)[(k // 3) % 2]} if k % 2 else threadpure.policy_for(k // 2, seams=False)
             out.append([0, 1, ["threload", rng.getrandbits(30), pol]])
+        for k in range(240 if tier == "quick" else 8000):
+            # ... or the records name a root key the shared cache does not hold (every thread ends up looking for a DC)
+            pol = {"mode": "marks", "q": (0.3, 0.6, 0.9)[k % 3], "p": (0.0, 0.02, 0.1)[(k // 3) % 3]} if k % 2 else threadpure.policy_for(k // 2, seams=False)
+            out.append([0, 1, ["threload", rng.getrandbits(30), pol, "unknown"]])
         for k in range(176 if tier == "quick" else 4000):
             # ... and as the FIRST thing a new process does with the library (first-use initialisation shared by the threads)
             pol = {"mode": "marks", "q": (0.2, 0.35, 0.5, 0.8)[k % 4], "p": (0.0, 0.0, 0.02)[(k // 4) % 3]} if k % 8 else {"mode": "prob", "p": (0.05, 0.2)[(k // 8) % 2]}
